@@ -30,7 +30,9 @@ ASSUMPTIONS = [
     "ClOrdIDs and other copied text are lists of code points; status / ExecType / MsgType values are strings "
     "(enum members compare and hash by value); the int 0 'ExecType omitted' marker is a string that is no table key",
     "reports are flat messages (no repeating groups, no error-class tag values); constructor arguments ticker / side / "
-    "ord_type / account are str, price / qty are float",
+    "ord_type / account are str; price / qty (constructor and replace_req arguments) are Python floats or ints – the "
+    "numeric TYPE is a Python-only dimension (the model's numbers are grid integers): both types are generated, an "
+    "int-typed value prints without '.0' in a built request and is canonicalised to the float spelling before comparing",
     "the reference exchange (Model/Exchange.lean, harness/c17_ref.py) is SPEC written for this property after the FIX 4.4 "
     "Vol.4 order state change matrices; both directions are FIFO, the client swallows an exception raised while "
     "processing a report (the report is consumed)",
@@ -137,10 +139,15 @@ def init_line(case: dict) -> str:
 # ---------------------------------------------------------------------------------------------
 # running a case on the implementation
 # ---------------------------------------------------------------------------------------------
+def make_link(case):
+    return R.Link(case["root"], case["price"], case["qty"], ptype=case.get("ptype", "float"),
+                  qtype=case.get("qtype", "float"), argint=case.get("argint", False))
+
+
 def new_link(case):
     """-> (Link | None, first line)"""
     try:
-        L = R.Link(case["root"], case["price"], case["qty"])
+        L = make_link(case)
     except BaseException as e:  # noqa
         return None, "raise " + R.exc_kind(e)
     return L, link_tok("ok", L)
@@ -178,8 +185,9 @@ def rand_case(rng, maxlen=25, odd_roots=True):
     root = rng.choice(ROOTS_GOOD if (not odd_roots or rng.random() < 0.85) else ROOTS_ODD)
     price = rng.choice([80, 80, 81, 1, 100, 800001, 0, -8])
     qty = rng.choice([40, 40, 8, 1, 100, 13, 0])
-    case = {"root": root, "price": price, "qty": qty, "style": rng.randrange(3), "actions": []}
-    L = R.Link(root, price, qty)
+    case = {"root": root, "price": price, "qty": qty, "style": rng.randrange(3), "actions": [],
+            "ptype": rng.choice(["float", "int"]), "qtype": rng.choice(["float", "int"]), "argint": rng.random() < 0.5}
+    L = make_link(case)
     n = rng.randint(1, maxlen)
     for i in range(n):
         a = rand_action(rng, L, first=(i == 0))
@@ -230,8 +238,9 @@ def rand_replace(rng, L):
     p0 = o["price"] if isinstance(o["price"], int) else 80
     q0 = o["qty"] if isinstance(o["qty"], int) else 40
     cum = o["cum"] if isinstance(o["cum"], int) else 0
-    p = rng.choice([None, None, p0, p0 + 1, p0 - 1, 96, 0, -8])
-    q = rng.choice([None, None, q0, q0 + 8, max(q0 - 3, 1), cum, max(cum - 1, 1), cum + 1, 0, -8])
+    p = rng.choice([None, None, p0, p0 + 1, p0 - 1, p0 + 4, 96, 0, -8])
+    q = rng.choice([None, None, q0, q0 + 8, max(q0 - 3, 1), cum, max(cum - 1, 1), max(cum - 8, 1), cum + 1,
+                    max(q0 // 2, 1), 8 * max((cum + 7) // 8 - 1, 1), 0, -8])
     return ["cReplace", p, q]
 
 
@@ -264,8 +273,9 @@ def rand_report(rng, L):
 def rand_open_case(rng, maxlen=20):
     """open system: client calls and ARBITRARY reports (mostly well-formed, some malformed) fed straight in"""
     case = {"root": rng.choice(ROOTS_GOOD + ROOTS_ODD), "price": rng.choice([80, 81, 1]), "qty": rng.choice([40, 8]),
-            "style": rng.randrange(3), "actions": []}
-    L = R.Link(case["root"], case["price"], case["qty"])
+            "style": rng.randrange(3), "actions": [],
+            "ptype": rng.choice(["float", "int"]), "qtype": rng.choice(["float", "int"]), "argint": rng.random() < 0.5}
+    L = make_link(case)
     for i in range(rng.randint(1, maxlen)):
         r = rng.random()
         if r < 0.55:
@@ -300,9 +310,10 @@ def bfs_alphabet(L):
     ex = L.ex
     lv = ex.leaves if ex.known else 0
     return [
-        ["cNew"], ["cCancel"], ["cReplace", 88, None], ["cReplace", None, 16], ["cRecv"],
+        ["cNew"], ["cCancel"], ["cReplace", 89, None], ["cReplace", None, 16], ["cRecv"],
         ["xRecv", "accept"], ["xRecv", "reject"], ["xRecv", "pend"], ["xDecide", "accept"], ["xDecide", "reject"],
-        ["xAck"], ["xFill", 8, 80], ["xFill", lv if lv > 0 else 1, 81], ["xExpire"], ["xSuspend"], ["xResume"],
+        ["xAck"], ["xFill", 5, 80], ["xFill", 13, 80], ["xFill", lv if lv > 0 else 1, 81], ["xExpire"], ["xSuspend"],
+        ["xResume"],
     ]
 
 
@@ -325,8 +336,8 @@ def compare_cases(drv, cases, dis, stats, label):
             br = a.split(" ", 1)[0] + ("/" + a.split(" ")[1] if a.startswith("raise") else "")
             stats["outcomes"][br] = stats["outcomes"].get(br, 0) + 1
             if a != b:
-                dis.append({"input": {"root": c["root"], "price": c["price"], "qty": c["qty"], "style": c.get("style", 0),
-                                      "actions": c["actions"][:i]}, "stream": label, "step": i,
+                dis.append({"input": dict({k: v for k, v in c.items() if k not in ("actions", "name")},
+                                          actions=c["actions"][:i]), "stream": label, "step": i,
                             "model": b, "impl": a})
                 break
     return n
@@ -395,8 +406,8 @@ def correspondence(ctx):
             dis.append({"input": {"render": n}, "stream": "render", "model": m, "impl": got})
     evals += len(grid)
 
-    # exhaustive small scope: every interleaving of the 16-action alphabet up to the depth, link states hashed
-    bfs_info = bfs(ctx, drv, dis, depth=ctx.n(8, 13), budget_s=420)
+    # exhaustive small scope: every interleaving of the 17-action alphabet up to the depth, link states hashed
+    bfs_info = bfs(ctx, drv, dis, depth=ctx.n(9, 12), budget_s=420)
     evals += bfs_info["transitions"]
     exhaustive = bfs_info["complete"]
 
@@ -408,7 +419,7 @@ def correspondence(ctx):
                 "(status, clord_id, orig_clord_id, order_id, price, qty, leaves, cum, avg_px, counter, can_cancel, can_replace, "
                 "is_finished), queue lengths, reference-exchange state; plus one per clord_root / str(float) comparison. "
                 "distinct = distinct action sequences + distinct strings / numbers + distinct link states of the exhaustive search; "
-                "`exhaustive` refers to that search only: every interleaving of the 16-action alphabet up to the stated depth "
+                "`exhaustive` refers to that search only: every interleaving of the 17-action alphabet up to the stated depth "
                 "from one initial order (link states hashed)",
         "samples": samples[:3] + [{"clord_root": strs[777], "model": mroots[777]}],
         "exhaustive": exhaustive,
@@ -428,11 +439,13 @@ def ask_chunked(live, lines, chunk=80):
 
 
 def bfs(ctx, drv, dis, depth, budget_s):
-    """exhaustive interleavings to `depth` over the 16-action alphabet, hashing link states;
+    """exhaustive interleavings to `depth` over the 17-action alphabet, hashing link states;
     model side: a live driver conversation with push/load of link states"""
     t0 = time.time()
-    case = {"root": "ord", "price": 80, "qty": 24}
-    L0 = R.Link(case["root"], case["price"], case["qty"])
+    # int-typed constructor arguments (10, 3), integral requests (qty 2.0), fractional fills (0.625, 1.625) and
+    # a fractional price (11.125): Replaced reports amend OrderQty to a fractional CumQty (matrix C.3.c)
+    case = {"root": "ord", "price": 80, "qty": 24, "ptype": "int", "qtype": "int", "argint": True}
+    L0 = make_link(case)
     seen = {L0.key(): 0}
     level = [(L0, 0, [])]
     live = C.LiveDriver()
@@ -471,7 +484,7 @@ def bfs(ctx, drv, dis, depth, budget_s):
     finally:
         live.close()
     return {"depth": done_depth, "states": len(seen), "transitions": transitions, "complete": done_depth == depth,
-            "alphabet": 16, "seconds": round(time.time() - t0, 1)}
+            "alphabet": 17, "seconds": round(time.time() - t0, 1)}
 
 
 # ---------------------------------------------------------------------------------------------
@@ -535,6 +548,17 @@ class Monitor:
         # a report of the reference exchange is never refused with an exception
         if a[0] == "cRecv" and res[0] == "raise":
             self.add("C17-report-raises:" + res[1], "processing a report of the reference exchange raised", observed=res)
+        # every report that was processed without an exception is absorbed: filled / remaining quantity as
+        # reported, and for a Replaced report the echoed price / quantity (whatever Python type the order was built with)
+        if a[0] in ("cRecv", "feed") and res[0] == "ret" and L.last_report is not None and L.last_report.get("35") == "8":
+            r = L.last_report
+            pairs = [("cum", "14"), ("leaves", "151")]
+            if r.get("150") == "5":
+                pairs += [("price", "44"), ("qty", "38")]
+            for k, t in pairs:
+                if isinstance(r.get(t), int) and ob[k] != r[t]:
+                    self.add("C17-report-not-absorbed:" + k, "after processing an execution report the order's %s is not the reported one" % k,
+                             expected=r[t], observed=[ob[k], type(getattr(o, {"cum": "cum_qty", "leaves": "leaves_qty"}.get(k, k))).__name__])
         # can_* true => the builder succeeds
         if a[0] == "cCancel" and before["can_cancel"] is True and res[0] != "built":
             self.add("C17-can-cancel-but-raises:" + str(res[1]), "can_cancel() was true but cancel_req() raised", observed=res)
